@@ -96,6 +96,11 @@ func r181(c *an.Ctx) {
 					gt = v
 				case "t1." + field + "==t2." + field, "t2." + field + "==t1." + field:
 					eq = v
+				// `a > b` is kept by the interpreter as the negation of `a <= b`
+				case "(t1." + field + "<=t2." + field + ")":
+					gt = map[string]string{"true": "false", "false": "true"}[v]
+				case "(t2." + field + "<=t1." + field + ")":
+					lt = map[string]string{"true": "false", "false": "true"}[v]
 				}
 			}
 			switch {
